@@ -32,6 +32,10 @@ pub struct Program {
     pub id: String,
     pub cap: usize,
     pub ops: Vec<Op>,
+    /// Run the program in a slot that has been used before: a frame filling the whole buffer was
+    /// sent, answered with all ones (data and working counter) and released.
+    #[serde(default)]
+    pub dirty: bool,
 }
 
 pub fn command(k: &str, addr: u32, reg: u32) -> Command {
@@ -56,9 +60,34 @@ pub fn command(k: &str, addr: u32, reg: u32) -> Command {
 
 fn run_case<const CAP: usize>(p: &Program, rng: &mut Rng) -> Value {
     let storage: &'static PduStorage<1, CAP> = Box::leak(Box::new(PduStorage::new()));
-    let (mut tx, _rx, pl) = storage.try_split().unwrap();
+    let (mut tx, mut rx, pl) = storage.try_split().unwrap();
     let pl: &'static _ = Box::leak(Box::new(pl));
     let mut ops_out = Vec::new();
+    if p.dirty {
+        // first use of the (only) slot: leave non-zero bytes everywhere a frame can reach
+        let mut first = pl.verif_alloc_frame().expect("alloc");
+        let fill = vec![0xEEu8; CAP];
+        let _ = first.verif_push_pdu_slice_rest(command("LRW", 0, 0), &fill);
+        let fut = first.verif_mark_sendable(pl, Duration::from_secs(1000), 0);
+        let mut reply: Vec<u8> = Vec::new();
+        if let Some(f) = tx.next_sendable_frame() {
+            let _ = f.send_blocking(|b| {
+                reply = b.to_vec();
+                Ok(b.len())
+            });
+        }
+        // the answer: another source address, data and working counter all ones
+        if reply.len() > 26 {
+            reply[6..12].copy_from_slice(&[0x12, 0x10, 0x10, 0x10, 0x10, 0x10]);
+            for b in reply[26..].iter_mut() {
+                *b = 0xFF;
+            }
+            let _ = rx.receive_frame(&reply);
+        }
+        let mut fut = std::pin::pin!(fut);
+        let mut cx = std::task::Context::from_waker(std::task::Waker::noop());
+        let _ = std::future::Future::poll(fut.as_mut(), &mut cx);
+    }
     let mut frame = pl.verif_alloc_frame().expect("alloc");
     let mut any = false;
     for o in &p.ops {
@@ -120,7 +149,7 @@ fn run_case<const CAP: usize>(p: &Program, rng: &mut Rng) -> Value {
     } else {
         drop(frame);
     }
-    json!({"id": p.id, "cap": p.cap, "ops": ops_out, "sent": sent, "send_len": send_len, "marked": any})
+    json!({"id": p.id, "cap": p.cap, "ops": ops_out, "sent": sent, "send_len": send_len, "marked": any, "dirty": p.dirty})
 }
 
 macro_rules! dispatch {
@@ -227,7 +256,7 @@ pub fn random(seed: u64, cases: usize, output: &str) -> std::io::Result<()> {
                 ops.push(Op { op: "push".into(), k, addr, reg, dlen, ovr, n: 0 });
             }
         }
-        let p = Program { id: format!("r{n}"), cap, ops };
+        let p = Program { id: format!("r{n}"), cap, ops, dirty: rng.chance(1, 3) };
         let v = run_guarded(&p, &mut rng);
         if v["marked"] == json!(true) || v.get("panic").is_some() {
             writeln!(out, "{v}")?;
